@@ -16,6 +16,8 @@ from lib import core
 from lib.core import f2bits, bits2f
 
 DRIVER = "drv_motion"
+LEAN_TARGETS = ["OmplModel.Props.C05", DRIVER]
+D3 = ("owen", "vana", "vanaowen")     # spaces served by Dubins3DMotionValidator
 NEG_INF_BITS = "18442240474082181120"
 
 # space name -> (tree, number of reals, number of factor slots, hinted?)
@@ -31,6 +33,8 @@ SPACES = {
     "dubinssym": (None, 3, 1, True),
     "rs": (None, 3, 1, True),
     "owen": (None, 4, 1, True),
+    "vana": (None, 5, 1, True),
+    "vanaowen": (None, 5, 1, True),
 }
 
 
@@ -135,11 +139,12 @@ def oracle(script, out, segs=None):
     segment count formula."""
     cfg = parse_header(script[0])
     tree, nreals, _nf, hinted = space_info(cfg)
-    stats = {"n0_invalid_excluded": 0, "ambiguous": 0, "calls": 0, "nontrivial": 0, "nopath": 0}
+    stats = {"n0_invalid_excluded": 0, "ambiguous": 0, "calls": 0, "nontrivial": 0, "nopath": 0, "f75": [], "box": 0, "gms": 0}
     if len(out) < len(script) - 1:
         return (len(out), "implementation stopped early (crash or sanitizer report)"), stats
     inv = set()
-    nopath = False       # Owen: getPath found no path for the pairs that follow (outside the property; only compared)
+    box = False          # geometric predicate: the invalid set of each call is the harness' truth table (inv= token)
+    nopath = False       # Dubins3D: getPath found no path for the pairs that follow
     prev_cnt = None
     pair_verdicts = {}   # (states text, frozenset(inv)) -> {form: v}
     for i, line in enumerate(script[1:]):
@@ -149,7 +154,19 @@ def oracle(script, out, segs=None):
         if o == "bad-op":
             return (i, "bad-op on a well-formed line"), stats
         if op == "invalid":
-            inv = set(int(x) for x in t[2:])
+            box = t[1] == "box"
+            inv = set() if box else set(int(x) for x in t[2:])
+            continue
+        if op == "gms":
+            f = gms_oracle(t, o)
+            stats["gms"] += 1
+            stats["calls"] += 1
+            if int(t[1]) >= 2:
+                stats["nontrivial"] += 1
+            if f == "amb":
+                stats["ambiguous"] += 1
+            elif f:
+                return (i, f), stats
             continue
         if op == "hint":
             nopath = len(t) == 3 and t[2] == "0"
@@ -191,9 +208,25 @@ def oracle(script, out, segs=None):
         stats["calls"] += 1
         if n >= 3:
             stats["nontrivial"] += 1
+        if box:
+            inv = set(x for x in parse_q(kv.get("inv", "-")) if x is not None)
+            stats["box"] += 1
         if nopath:
+            # no curve exists: the call must answer false and (F75) count one invalid motion; the lastValid clause
+            # does not apply (nothing to interpolate), neither form may claim validity
             stats["nopath"] += 1
-            prev_cnt = tuple(map(int, kv["cnt"].split("->")[1].split("/")))
+            c0, c1 = kv["cnt"].split("->")
+            a0, b0 = map(int, c0.split("/"))
+            a1, b1 = map(int, c1.split("/"))
+            if prev_cnt is not None and (a0, b0) != prev_cnt:
+                return (i, "motion counters changed between calls"), stats
+            prev_cnt = (a1, b1)
+            if v != 0:
+                return (i, "%s returned 1 although getPath found no path between the states" % op), stats
+            if (a1 - a0, b1 - b0) == (0, 0):
+                stats["f75"].append(i)      # reported by judge() as its own narrow record (F75)
+            elif (a1 - a0, b1 - b0) != (0, 1):
+                return (i, "%s returned 0 (no path) and advanced valid/invalid counters by +%d/+%d" % (op, a1 - a0, b1 - b0)), stats
             continue
         if int(kv["amb"]) > 0:
             stats["ambiguous"] += 1   # two subdivision points are the same state: the index predicate is not
@@ -253,6 +286,34 @@ def oracle(script, out, segs=None):
             return (i, "%s returned %d and advanced valid/invalid counters by +%d/+%d (must be exactly one, by one)"
                     % (op, v, a1 - a0, b1 - b0)), stats
     return None, stats
+
+
+def ms_spec(count, endpoints, alloc, size):
+    """independent spec of getMotionStates: (returned, new size, labels of the slots)."""
+    c = (count + 1) % 4294967296            # count++ on a 32-bit unsigned
+    full = (["S"] if endpoints else []) + (["%d/%d" % (j, c) for j in range(1, c)] if c >= 2 else []) + (["G"] if endpoints else [])
+    avail = len(full) if alloc else size
+    written = full[:avail]
+    newsize = len(full) if alloc else size
+    return len(written), newsize, written + ["u"] * (newsize - len(written))
+
+
+def gms_oracle(t, o):
+    count, e, a, size = int(t[1]), t[2] == "1", t[3] == "1", int(t[4])
+    kv = kvline(o)
+    ret, newsize, slots = ms_spec(count, e, a, size)
+    if int(kv["ret"]) != ret:
+        return "getMotionStates(count=%d, endpoints=%d, alloc=%d, size %d) returned %s, must be %d" % (count, e, a, size, kv["ret"], ret)
+    if int(kv["size"]) != newsize:
+        return "getMotionStates(count=%d, endpoints=%d, alloc=%d) left a vector of size %s, must be %d" % (count, e, a, kv["size"], newsize)
+    if int(kv["amb"]) > 0:
+        return "amb"
+    got = [] if kv["slots"] == "-" else kv["slots"].split(",")
+    if got != slots:
+        k = [i for i in range(max(len(got), len(slots))) if i >= len(got) or i >= len(slots) or got[i] != slots[i]][0]
+        return "getMotionStates(count=%d, endpoints=%d, alloc=%d, size %d): slot %d holds %s, must hold %s" % (
+            count, e, a, size, k, got[k] if k < len(got) else "<nothing>", slots[k] if k < len(slots) else "<nothing>")
+    return None
 
 
 # ------------------------------------------------------------------ generators
@@ -396,12 +457,108 @@ def gen_spaces(r, tier):
     return out
 
 
+def box_line(bounds):
+    return "invalid box " + " ".join("%s %s" % (f2bits(lo), f2bits(hi)) for lo, hi in bounds)
+
+
+def gen_box(r, tier):
+    """geometric predicates: the invalid region is an axis-aligned box in some of the coordinates (the others
+    unconstrained), placed on the motion, at its end, across the SO(2) seam, or off the motion."""
+    out = []
+    inf = float("inf")
+    reps = 6 if tier == "thorough" else 2
+    for space in ["rn", "se2", "so2", "cmpd", "cmpd2"] * reps:
+        frac = r.choice([0.01, 0.03, 0.004])
+        cfg = {"space": space, "validator": "default", "frac": frac, "lo": -1.0, "hi": 1.0, "dim": r.range(2, 3)}
+        tree, nreals, nf, _ = space_info(cfg)
+        cfg["f"] = [r.range(1, 3) for _ in range(nf)]
+        lines = [header(cfg)]
+        for p in range(30 if tier == "thorough" else 12):
+            a = rnd_state(r, cfg, tree)
+            c = r.below(8)
+            if c == 0:
+                b = list(a)
+            elif c == 1:
+                b = near_state(r, cfg, tree, a, frac * 0.5)
+            else:
+                b = rnd_state(r, cfg, tree)
+            if spec_seg(tree, cfg, a, b) > 1200:
+                continue
+            for _ in range(3):
+                # centre of the box: a point of the motion's straight chord (component-wise), the end state, or anywhere
+                k = r.below(6)
+                if k == 0:
+                    ctr = list(b)
+                elif k == 1:
+                    ctr = rnd_state(r, cfg, tree)
+                else:
+                    u = r.unit()
+                    ctr = [x + (y - x) * u for x, y in zip(a, b)]
+                half = r.choice([0.02, 0.1, 0.3])
+                bounds = []
+                free = 0
+                for x in ctr:
+                    if r.chance(1, 3) and free < nreals - 1:
+                        bounds.append((-inf, inf))
+                        free += 1
+                    else:
+                        bounds.append((x - half, x + half))
+                lines.append(box_line(bounds))
+                lines += ["cm2 %s %s" % (st(a), st(b)), "cm3 %s %s" % (st(a), st(b))]
+        # wrap-around pair with the box sitting on the seam (SO(2) coordinate last in se2)
+        if space in ("se2", "so2"):
+            for yaw_a, yaw_b in [(3.0, -3.0), (-3.1, 3.05), (math.pi - 0.01, -math.pi)]:
+                a = ([0.1, -0.2] if space == "se2" else []) + [yaw_a]
+                b = ([0.15, -0.1] if space == "se2" else []) + [yaw_b]
+                for lo, hi in [(3.1, 4.0), (-4.0, -3.1), (-math.pi, -math.pi), (3.05, 3.06)]:
+                    bounds = [(-inf, inf)] * (nreals - 1) + [(lo, hi)]
+                    lines.append(box_line(bounds))
+                    lines += ["cm2 %s %s" % (st(a), st(b)), "cm3 %s %s" % (st(a), st(b))]
+        out.append(("box-" + space, lines))
+    return out
+
+
+def gen_gms(r, tier):
+    """getMotionStates: every (count, endpoints, alloc, size) with small numbers, then random larger ones, the
+    callers' recipes (count = n - 1 incl. the UINT_MAX wrap at n = 0; count = n), under-sized vectors."""
+    out = []
+    for space in ["r1", "se2", "dubins"] + (["so2", "cmpd", "rs"] if tier == "thorough" else []):
+        cfg = {"space": space, "validator": "default", "frac": 0.01, "lo": -4.0, "hi": 4.0, "dim": 1, "rho": 1.0}
+        tree, nreals, nf, hinted = space_info(cfg)
+        cfg["f"] = [1] * nf
+        if space == "r1":
+            a, b = [0.5], [3.25]
+        elif space == "so2":
+            a, b = [3.0], [-2.9]
+        elif hinted:
+            a, b = [0.3, -0.4, 0.2], [2.5, 1.5, -1.0]
+        else:
+            a = rnd_state(r, cfg, tree)
+            b = rnd_state(r, cfg, tree)
+        lines = [header(cfg)]
+        cmax = 7 if tier == "thorough" else 5
+        for count in list(range(0, cmax + 1)) + [4294967295]:
+            for e in (0, 1):
+                for al in (0, 1):
+                    for size in range(0, cmax + 4):
+                        lines.append("gms %d %d %d %d %s %s" % (count, e, al, size, st(a), st(b)))
+        for _ in range(120 if tier == "thorough" else 40):
+            count = r.choice([r.range(0, 40), r.range(0, 300), 4294967295])
+            e, al = r.below(2), r.below(2)
+            want = (count + 1) % 4294967296
+            want = (want - 1 if want >= 2 else 0) + 2 * e
+            size = r.choice([0, 1, 2, max(want - 1, 0), want, want + 1, r.range(0, 320)])
+            lines.append("gms %d %d %d %d %s %s" % (count, e, al, size, st(a), st(b)))
+        out.append(("gms-" + space, lines))
+    return out
+
+
 def gen_hinted_pairs(r, tier):
     """Dubins, symmetric Dubins, Reeds-Shepp (own validators and the discrete one), Owen (Dubins3D validator)."""
     out = []
     reps = 8 if tier == "thorough" else 4
     for space, validator in [("dubins", "default"), ("rs", "default"), ("dubinssym", "default"), ("dubins", "discrete"),
-                             ("rs", "discrete"), ("owen", "default")] * reps:
+                             ("rs", "discrete"), ("owen", "default"), ("vana", "default"), ("vanaowen", "default")] * reps:
         cfg = {"space": space, "validator": validator, "frac": r.choice([0.01, 0.03, 0.005]), "lo": -5.0, "hi": 5.0, "dim": 1,
                "f": [r.range(1, 3)], "rho": r.choice([1.0, 0.5, 2.0])}
         pairs = []
@@ -411,6 +568,8 @@ def gen_hinted_pairs(r, tier):
                 yaw = r.uniform(-math.pi, math.pi - 1e-9)
                 if space == "owen":
                     return xy + [r.uniform(-1.0, 1.0), yaw]
+                if space in ("vana", "vanaowen"):
+                    return xy + [r.uniform(-1.0, 1.0), r.uniform(-0.4, 0.4), yaw]     # x y z pitch yaw
                 return xy + [yaw]
             a = one()
             c = r.below(8)
@@ -472,7 +631,7 @@ def split_groups(script):
         if op == "invalid" and cur and cur[-1].split()[0] not in ("invalid", "hint"):
             groups.append(cur)
             cur = []
-        elif op == "list" and cur:
+        elif op in ("list", "gms") and cur:
             groups.append(cur)
             cur = []
         cur.append(ln)
@@ -508,7 +667,7 @@ def shrink(ck, hbin, script, segs_by_text, fail_idx=None):
         kept = core.ddmin(groups, lambda gs: fails([l for g in gs for l in g]), max_tests=200)
         return [hdr] + [l for g in kept for l in g]
     # drop call lines of the group that are not needed (the predicate and hint lines stay)
-    calls = [l for l in best if l.split()[0] in ("cm2", "cm3", "cm3n", "list")]
+    calls = [l for l in best if l.split()[0] in ("cm2", "cm3", "cm3n", "list", "gms")]
     if len(calls) > 1:
         fixed = [l for l in best if l not in calls]
         calls = core.ddmin(calls, lambda cs: fails(fixed + cs), max_tests=20)
@@ -574,7 +733,8 @@ def account(ck, tag, script, impl, stats):
     ck.count("calls", stats["calls"])
     ck.count("excluded:n=0 invalid end state (fraction -1/0)", stats["n0_invalid_excluded"])
     ck.count("excluded:ambiguous subdivision (identical interpolants)", stats["ambiguous"])
-    ck.count("excluded:Owen getPath found no path (compared with the model only)", stats["nopath"])
+    ck.count("dubins3d: getPath found no path (must answer false and count one invalid motion)", stats["nopath"])
+    ck.count("calls under a geometric (box) predicate", stats["box"])
     cfg = parse_header(script[0])
     last_inv = ""
     for i, ln in enumerate(script[1:]):
@@ -592,10 +752,45 @@ def account(ck, tag, script, impl, stats):
             ck.count("verdict:%s" % kv["v"])
         elif op == "list":
             ck.case((script[0], ln), int(ln.split()[1]) >= 3)
+        elif op == "gms":
+            ck.case((script[0], ln), int(ln.split()[1]) >= 2)
     ck.sample({"generator": tag, "header": script[0], "lines": script[1:6], "impl": impl[:5]})
 
 
 _reported = set()
+_CNT = re.compile(r"cnt=(\d+)/(\d+)->(\d+)/(\d+)")
+
+
+def canon(lines, skip=()):
+    """for the model/implementation diff the running counter totals become increments (so that one uncounted
+    call does not make every later line differ); lines listed in `skip` are blanked."""
+    out = []
+    for i, l in enumerate(lines):
+        if i in skip:
+            out.append("<skipped: recorded finding>")
+            continue
+        out.append(_CNT.sub(lambda m: "cnt=+%d/+%d" % (int(m.group(3)) - int(m.group(1)), int(m.group(4)) - int(m.group(2))), l))
+    return out
+
+
+def diff(ck, impl, model, skip=()):
+    return ck.first_diff(canon(impl, skip), canon(model, skip))
+
+
+def report_f75(ck, hbin, script, impl, hits, cfg):
+    """Dubins3D no-path calls that advanced neither counter: one narrow record (F75), with a minimal replay."""
+    i = hits[0]
+    hint = [l for l in script[1:1 + i] if l.startswith("hint")][-1:]
+    inv = [l for l in script[1:1 + i] if l.startswith("invalid")][-1:]
+    small = [script[0]] + inv + hint + [script[1 + i]]
+    o, _rc, _e, m = run_script(ck, hbin, small)
+    ck.count("dubins3d no-path calls that counted nothing (F75)", len(hits))
+    new = ck.report({"engine": "motion", "what": "dubins3d-nopath-uncounted", "validator": cfg["validator"],
+                     "form": script[1 + i].split()[0]},
+                    script=small, expected=m, observed=o, engine="motion")
+    if new:
+        ck.log("property failure: Dubins3DMotionValidator returned false (no path) without advancing a counter [%s]" % cfg["space"])
+    return new
 
 
 def judge(ck, hbin, tag, script, segs_by_text=None, pre=None):
@@ -605,7 +800,13 @@ def judge(ck, hbin, tag, script, segs_by_text=None, pre=None):
     cfg = parse_header(script[0])
     if rc not in (0,) and fail is None:
         fail = (len(impl), "harness exited with code %s: %s" % (rc, (err or "")[-400:]))
-    d = ck.first_diff(impl, model)
+    skip = set(stats["f75"])
+    if skip:
+        key = ("f75", cfg["validator"], script[1 + stats["f75"][0]].split()[0])
+        if key not in _reported:
+            _reported.add(key)
+            report_f75(ck, hbin, script, impl, stats["f75"], cfg)
+    d = diff(ck, impl, model, skip)
     if fail is None and d is not None:
         found = targeted_search(ck, hbin, script, impl, model, d, segs_by_text)
         if found:
@@ -638,11 +839,12 @@ def judge(ck, hbin, tag, script, segs_by_text=None, pre=None):
         def still(gs):
             s = [hdr] + [l for g in gs for l in g]
             o, r2, e2, m = run_script(ck, hbin, s)
-            return ck.first_diff(o, m) is not None
+            _f, st2 = oracle(s, o, None)
+            return diff(ck, o, m, set(st2["f75"])) is not None
         kept = core.ddmin(split_groups(script), still, max_tests=120)
         small = [hdr] + [l for g in kept for l in g]
         o, r2, e2, m = run_script(ck, hbin, small)
-        dd = ck.first_diff(o, m)
+        dd = diff(ck, o, m, set(oracle(small, o, None)[1]["f75"]))
         ck.report({"engine": "motion", "what": "model/implementation disagreement"}, script=small, expected=m, observed=o,
                   found_input=False, engine="motion",
                   obligation="correspondence motion: motion validators vs OmplModel.Model.Motion (first differing line %s: impl %r, model %r)"
@@ -669,7 +871,7 @@ def hinted_scripts(ck, hbin, r, tier):
             n = int(kv["n"])
             if n > 1500:
                 continue
-            hint = n if cfg["space"] != "owen" else (n, int(kv.get("path", "1")))
+            hint = n if cfg["space"] not in D3 else (n, int(kv.get("path", "1")))
             segs["%s %s" % (st(a), st(b))] = (bits2f(kv["dist"]), bits2f(kv["L"]))
             for kind in ["none", "end", r.choice(KINDS), r.choice(KINDS)]:
                 lines += group(a, b, rnd_inv(r, n, kind), hint=hint)
@@ -692,9 +894,9 @@ def setup(ck):
 
 
 def run(ck):
-    ck.rule = ("one case = one checkMotion call (2- or 3-argument) on a pair of states under a scripted predicate on "
-               "subdivision indices, or one state-list call; non-trivial if the segment count n >= 3 (list: count >= 3); "
-               "distinct by header + call line + predicate")
+    ck.rule = ("one case = one checkMotion call (2- or 3-argument) on a pair of states under a scripted predicate (index set or "
+               "box region), one state-list call, or one getMotionStates call; non-trivial if the segment count n >= 3 "
+               "(list: count >= 3; getMotionStates: count >= 2); distinct by header + call line + predicate")
     ck.trusted += ["harness/motion.cpp: scripted StateValidityChecker; a queried state is mapped to its subdivision index by pointer "
                    "identity (s2) or bit-wise comparison with the harness' own space->interpolate(s1,s2,j/n)",
                    "Dubins/Reeds-Shepp/Owen: the segment count (and Owen's getPath outcome) is taken from the real code and given to "
@@ -702,9 +904,11 @@ def run(ck):
     ck.assumptions += ["s1 is valid (MotionValidator.h: not re-checked, not demanded)",
                        "segment counts below 2^31 (int/unsigned conversions not modelled)",
                        "n = 0 with an invalid end state reports fraction (-1)/0: excluded from the [0,1) clause (DESIGN 2.5), exercised and counted",
-                       "Dubins3D: calls for which getPath finds no path are outside the property (nothing to subdivide); they count nothing and leave lastValid unset (theorem dubins3D_nopath_uncounted)"]
-    ck.lean_build(["OmplModel.Props.C05", DRIVER])
-    ck.audit()
+                       "Dubins3D: when getPath finds no path the call must answer false and count one invalid motion (F75); the lastValid clause "
+                       "does not apply there (no curve to interpolate; lastValid is left unset, theorem dubins3D_nopath_lastValid_unset)",
+                       "getMotionStates: count + 2 < 2^32 apart from the modelled UINT_MAX wrap; in alloc mode the incoming vector holds no owned states"]
+    ck.lean_build(LEAN_TARGETS)
+    ck.audit(roots=["Drv.Motion"])
     if ck.tier == "thorough" and ck.lean_ok:
         ck.leanchecker(["OmplModel.Props.C05"])
     hbin = ck.build_harness("motion", ["motion.cpp"], link_ompl=True)
@@ -719,6 +923,10 @@ def run(ck):
     for tag, s in gen_spaces(r.fork("spaces"), ck.tier):
         jobs.append((tag, s, None))
     for tag, s in gen_lists(r.fork("lists"), ck.tier):
+        jobs.append((tag, s, None))
+    for tag, s in gen_box(r.fork("box"), ck.tier):
+        jobs.append((tag, s, None))
+    for tag, s in gen_gms(r.fork("gms"), ck.tier):
         jobs.append((tag, s, None))
     for tag, s, segs in hinted_scripts(ck, hbin, r.fork("hinted"), ck.tier):
         jobs.append((tag, s, segs))
@@ -743,8 +951,10 @@ def replay(ck, data):
     ck.lean_build([DRIVER])
     script = data["script"]
     impl, rc, err, model = run_script(ck, hbin, script)
-    fail, _ = oracle(script, impl)
-    d = ck.first_diff(impl, model)
+    fail, st_ = oracle(script, impl)
+    if fail is None and st_["f75"]:
+        fail = (st_["f75"][0], "Dubins3DMotionValidator returned false (getPath found no path) without advancing either counter")
+    d = diff(ck, impl, model)
     for i, ln in enumerate(script[1:]):
         print("%-60s impl:  %s" % (ln[:60], impl[i] if i < len(impl) else "<missing>"))
         if i < len(model) and (i >= len(impl) or impl[i] != model[i]):
